@@ -22,7 +22,7 @@ BOUNDS = {
              'lattices (cubic, triclinic), dimensions 1..3; occupancy histories (T,A) in {(3,1),(2,2)} over 3 sites',
     'thorough': 'event tables k<=4, n<=4; jump tables k<=3 on 6 pool lattices (k=4 on the 3-site set), 3- and 4-site sets; occupancy (T,A) in {(4,1),(3,2),(2,3),(3,1)}',
 }
-OUTSIDE = ['e_act values on graph edges and activation energies (need the attempt frequency -> scipy periodogram); rates: only the counting part',
+OUTSIDE = ['e_act *values* on graph edges (only the edge set is covered, for an arbitrary positive attempt frequency) and activation energies (need the attempt frequency -> scipy periodogram); rates: only the counting part',
            'more rows/sites than the bound']
 ASSUMPTIONS = [
     'jump tables contain rows with start != destination, both valid site indices (what _generic_transitions_to_jumps emits; C04)',
@@ -386,7 +386,82 @@ def rates_job_replay(params, inputs):
     return True, 'ok'
 
 
-REPLAYS = dict(tmatrix_job=tmatrix_job_replay, jbook_job=jbook_job_replay, occupancy_job=occupancy_job_replay, rates_job=rates_job_replay)
+# --------------------------------------------------------------------------- jump graph
+
+
+class _FakeMetrics:
+    def __init__(self, nu):
+        self._nu = nu
+
+    def attempt_frequency(self):
+        return self._nu, 0
+
+
+def graph_job(params):
+    """Jumps.to_graph(): nodes = sites (with labels), edge set = support of the jump count matrix when no energy window is given;
+    the attempt frequency (scipy periodogram) is an arbitrary positive real, the temperature an arbitrary positive real."""
+    import gemdat.jumps as jm
+    import gemdat.transitions as tr
+    from symgem.core import sym_real
+    T, A = params['T'], params['A']
+
+    def body():
+        with Patches() as p:
+            p.np(jm, tr)
+            s = S([[sym_int(f's_{t}_{a}', NOSITE, 2) for a in range(A)] for t in range(T)])
+            assume(disj([s[t, a] != s[t + 1, a] for t in range(T - 1) for a in range(A)]))
+            # occupancy of a site must not exceed 1 (pymatgen), cf. occupancy_job
+            for i in range(3):
+                assume(ssum([ite(v == i, 1, 0) for v in s.ravel().tolist()]) <= T)
+            nu = sym_real('attempt_frequency', 0, 10 ** 14, lo_strict=True)
+            temp = sym_real('temperature', 0, 3000, lo_strict=True)
+            try:
+                t, traj = _rates_setup(jm, tr, s, T, A)
+                traj.metadata = {'temperature': temp}
+                traj.metrics = lambda: _FakeMetrics(nu)
+                jumps = jm.Jumps(t)
+            except ValueError as e:
+                if 'No jumps found' in str(e):
+                    return
+                event(f'exception:{type(e).__name__}', detail=str(e)[:100])
+                return
+            try:
+                G = jm.Jumps.to_graph.__wrapped__(jumps)
+            except Exception as e:
+                event(f'exception:{type(e).__name__}', detail=str(e)[:200])
+                return
+            M = jumps.matrix()
+            support = {(i, j) for i in range(3) for j in range(3) if int(M[i, j]) > 0}
+            prove('graph nodes = sites, labelled', sorted(G.nodes) == [0, 1, 2] and [G.nodes[i]['label'] for i in range(3)] == ['A', 'A', 'B'])
+            prove('jump graph edge set = support of the jump count matrix', {(int(a), int(b)) for a, b in G.edges} == support,
+                  detail=dict(edges=sorted((int(a), int(b)) for a, b in G.edges), support=sorted(support)))
+            sample(dict(T=T, A=A, edges=len(support)))
+
+    return symbolic_job(params, body, graph_job_replay)
+
+
+def graph_job_replay(params, inputs):
+    import gemdat.jumps as jm
+    import gemdat.transitions as tr
+    T, A = params['T'], params['A']
+    s = np.array([[int(inputs[f's_{t}_{a}']) for a in range(A)] for t in range(T)], dtype=int)
+    nu, temp = float(inputs['attempt_frequency']), float(inputs['temperature'])
+    try:
+        t, traj = _rates_setup(jm, tr, s, T, A)
+        traj.metadata = {'temperature': temp}
+        traj.metrics = lambda: _FakeMetrics(nu)
+        jumps = jm.Jumps(t)
+    except ValueError as e:
+        return True, f'documented ValueError: {e}'
+    G = jumps.to_graph()
+    M = jumps.matrix()
+    support = {(i, j) for i in range(3) for j in range(3) if M[i, j] > 0}
+    got = {(int(a), int(b)) for a, b in G.edges}
+    return got == support, f'graph edges {sorted(got)} vs support of the jump matrix {sorted(support)}; states={s.T.tolist()}'
+
+
+REPLAYS = dict(tmatrix_job=tmatrix_job_replay, jbook_job=jbook_job_replay, occupancy_job=occupancy_job_replay, rates_job=rates_job_replay,
+               graph_job=graph_job_replay)
 
 
 def jobs(tier, seed):
@@ -407,6 +482,8 @@ def jobs(tier, seed):
                        params=dict(k=k, lattice=lat, sites=ss, dims=[1, 2, 3], n_float=2, total_time=7e-12)))
     for T, A, ss in oc:
         js.append(dict(name=f'occupancy_T{T}_A{A}_{ss}', fn='occupancy_job', params=dict(T=T, A=A, sites=ss, lattice='cubic5')))
+    for T, A in ([(3, 1), (4, 1)] if tier == 'quick' else [(3, 1), (4, 1), (5, 1), (3, 2)]):
+        js.append(dict(name=f'graph_T{T}_A{A}', fn='graph_job', params=dict(T=T, A=A)))
     for T, A, n in ([(4, 1, 2), (5, 1, 2)] if tier == 'quick' else [(5, 1, 2), (6, 1, 2), (7, 1, 2), (6, 1, 3), (5, 2, 2)]):
         js.append(dict(name=f'rates_T{T}_A{A}_p{n}', fn='rates_job', params=dict(T=T, A=A, n_parts=n)))
     return js
